@@ -10,6 +10,18 @@ import Nstd.Rc.Lemmas
 -/
 namespace Nstd.Rc
 
+/-
+  OPEN: handles nested inside payloads.  The String object inside a Variant / Xml::Variant block
+  (and the Variants inside a list payload) is itself a handle to a counted block.  The theorems
+  below cover such a nested handle only as a slot owned by ONE thread at a time; the concurrent
+  read-only use of the inner String of a box that is shared by handles of several threads
+  (`Variant::toString() const` in two threads) is not modelled: payloads are flat in `apiStep`,
+  and the inner blocks are covered only by the ledger accounting of the harness (no leak, no
+  double release at the end of every history).  Statement that remains open:
+    theorem mt_safe_nested : the conjunction of `mt_safe` for a heap whose blocks contain handle
+      slots that may be read (copied from) by every thread holding a handle to the enclosing block.
+-/
+
 /-- multi-threaded safety: in every reachable state, for every schedule and all programs -/
 theorem mt_safe {n : Nat} {s : St} (h : Reach n s) :
     -- the counter equals the number of handles (slots of all threads, including the scratch slots
@@ -171,6 +183,12 @@ example : ∃ s, runSched (init nSlots)
      (1, .readRef 0 true), (2, .dec 1), (1, .alloc 17 0 [97, 98] 3), (1, .dec 0), (1, .free), (1, .move 0 17)] = some s
     ∧ s.freed 0 = 1 ∧ s.heap 0 = none ∧ s.slots 0 = .blk 1 ∧ s.viol = 0 := by
   refine ⟨_, rfl, ?_⟩
+  decide
+
+/-- a reachable state in which a thread stands between its counter read and its in-place write
+    (the hypothesis of `mt_write_sole` / the exception of `mt_view_stable`) -/
+example : ∃ s, Reach nSlots s ∧ s.pc 1 = .writing 0 0 ∧ (astep s 1 (.write [98])).isSome = true := by
+  refine ⟨_, reach_runSched [(0, .alloc 0 0 [97] 3), (0, .give 0 1), (1, .readRef 0 true)] Reach.init rfl, ?_⟩
   decide
 
 /-- a reachable state in which a block is shared by handles of two different threads -/
